@@ -119,7 +119,10 @@ CLAIMED["C10"] = dict(
     design="DESIGN.md §5 C10")
 CLAIMED["C04"] = dict(
     level="proof",
-    text="PARTIAL. Lean 4 theorems over the crash-extended interleaving models (`Sys.withCrash`: every thread = process carries a fuse and dies at ANY atomic step, frozen in the middle "
+    text="PARTIAL (ports and services at the file-system level are not modelled). File-system level of the NODE: Lean kill tables and theorems over the step-level Lifecycle model "
+         "(see C07): a process killed between the commit of its monitoring token and the removal of its state file is collected completely by a survivor; killed earlier or later it is "
+         "NOT (details file / token files / owner-lock + context orphaned for ever; a tag still at creation permission makes the node uncollectable; a failed cleanup drops the token and "
+         "leaves the resources) — each proved as a refutation and replayed with a kill at the exact system call (known findings). Shared-memory level: Lean 4 theorems over the crash-extended interleaving models (`Sys.withCrash`: every thread = process carries a fuse and dies at ANY atomic step, frozen in the middle "
          "of whatever operation it was in) of the two shared-memory structures every lifecycle operation goes through — RobustUniqueIndexSet and the registry Container: survivors keep "
          "exclusive ownership; recovery acts only for dead owners, returns exactly their cells and is complete wherever they died; generations/lock monotone; every snapshot entry a "
          "survivor ever sees was genuinely published (no phantom, no torn entry) and odd generation <=> published for every slot in every reachable state; after recovery the dead owner "
@@ -217,6 +220,20 @@ CLAIMED["C11"] = dict(
          "re-attachment is checked by an executable predicate in the driver only (testing); chunk contents travel with the queue entry (content stability is C02's subject).",
     technique="Lean 4 proof (inductive invariants over API histories; refutation + partial theorem for routing) + differential correspondence model vs implementation",
     design="DESIGN.md §5 C11, notes/C11-design.md")
+CLAIMED["C07"] = dict(
+    level="proof",
+    text="Lean 4 theorems over a step-level model (one step per system call) of the monitoring token protocol — owner (node creation: details file, context / state / owner-lock files, "
+         "fcntl lock, permission commits; orderly drop), monitor (Node::list / ProcessMonitor::state) and cleaner (ProcessCleaner::new + dead-node cleanup) as processes of an interleaving "
+         "system closed under death at ANY step (locks of a dead process vanish), for ANY number of monitors and cleaners and EVERY schedule: a running owner is not reported dead while "
+         "starting or running and nothing is reclaimed from it; a successful cleanup only ever happens for a dead owner; a dead owner is never reported alive; concurrent cleaners are mutually "
+         "exclusive and a contended cleaner is told so; the token stays intact while the state file exists. Four natural statements are FALSE and proved false with the exact interleaving / "
+         "kill point, each replayed on the real code (known findings): a live node is reported Dead during its own orderly shutdown (two variants), a dead owner can stay uncollectable for ever, "
+         "a second cleaner can acquire after the first finished.",
+    note="Trusted: Lean kernel + 3 standard axioms; hand-written model (tie: strace step-list equality for 6 scenarios; kill at every system call of owner create/drop (31 points) and of the cleaner "
+         "(40 points) with survivor verdict + leftover files compared with the model; owner stopped after each step with a full Node::list; monitor stepped against a finishing owner; 2..4 "
+         "concurrent cleaners under a SIGSTOP/SIGCONT scheduler); uid 0 only (no EACCES paths); single-threaded processes; one node; descriptors represented by program counters.",
+    technique="Lean 4 proof (rely/guarantee invariant over an interleaving semantics with arbitrary death points; refutations with concrete schedules) + system-call-level correspondence (strace equality, kill/stop injection)",
+    design="DESIGN.md §5 C07, notes/C07-design.md")
 NOT_YET = {}
 
 def main():
